@@ -17,6 +17,8 @@ package main
 import (
 	"fmt"
 	"go/ast"
+	"go/token"
+	"go/types"
 	"regexp"
 	"sort"
 	"strings"
@@ -222,6 +224,9 @@ func genLocks(r *Repo) (string, error) {
 	if err := in.load(); err != nil {
 		return "", err
 	}
+	if err := in.nodeSources(); err != nil {
+		return "", err
+	}
 	roots, err := in.runAll()
 	if err != nil {
 		return "", err
@@ -266,8 +271,213 @@ func genLocks(r *Repo) (string, error) {
 		}
 		b.WriteString(CoqString(s))
 	}
+	b.WriteString("].\n\n")
+	// "same path => same node": where path nodes live and where they are made
+	b.WriteString("(* struct fields that hold path nodes (struct, ptr | map | other:<type>), field names not compared *)\nDefinition node_fields : list (string * string) := [")
+	for i, nf := range in.nodeFields {
+		if i > 0 {
+			b.WriteString("; ")
+		}
+		fmt.Fprintf(&b, "(%s, %s)", CoqString(nf[0]), CoqString(nf[1]))
+	}
+	b.WriteString("].\n")
+	b.WriteString("(* every construction of a pathNode: enclosing function, what becomes of the new node *)\nDefinition node_allocs : list (string * string) := [")
+	for i, na := range in.nodeAllocs {
+		if i > 0 {
+			b.WriteString("; ")
+		}
+		fmt.Fprintf(&b, "(%s, %s)", CoqString(na[0]), CoqString(na[1]))
+	}
 	b.WriteString("].\n")
 	return b.String(), nil
 }
 
 func init() { register(Generator{Name: "LockGen", Run: genLocks}) }
+
+// ---- path node sources ("same path => same node") ---------------------------------------------
+//
+// nodeFields: every struct field of package p9 whose type mentions pathNode.  nodeAllocs: every place a
+// pathNode is constructed (a composite literal, new(pathNode), a call of a function whose body is such a
+// construction) with the syntactic destination of the new node:
+//
+//	"field:T"          value of a field of a composite literal of struct T
+//	"childNodes[...]"  bound to a local that the same function stores into a childNodes map
+//	"return"           returned by a constructor function
+//	"other:<text>"     anything else
+func (in *lgInterp) nodeSources() error {
+	files, err := in.r.Files("p9")
+	if err != nil {
+		return err
+	}
+	in.rootFields = map[string]string{}
+	mentions := func(t ast.Expr) bool {
+		found := false
+		ast.Inspect(t, func(n ast.Node) bool {
+			if id, ok := n.(*ast.Ident); ok && id.Name == "pathNode" {
+				found = true
+			}
+			return true
+		})
+		return found
+	}
+	ctors := map[string]bool{} // functions that return a fresh pathNode
+	isLit := func(x ast.Expr) bool {
+		if u, ok := x.(*ast.UnaryExpr); ok && u.Op == token.AND {
+			x = u.X
+		}
+		if cl, ok := x.(*ast.CompositeLit); ok && types.ExprString(cl.Type) == "pathNode" {
+			return true
+		}
+		if ce, ok := x.(*ast.CallExpr); ok {
+			if id, ok := ce.Fun.(*ast.Ident); ok && id.Name == "new" && len(ce.Args) == 1 && types.ExprString(ce.Args[0]) == "pathNode" {
+				return true
+			}
+		}
+		return false
+	}
+	for _, fn := range SortedNames(files) {
+		for _, d := range files[fn].Decls {
+			switch x := d.(type) {
+			case *ast.GenDecl:
+				for _, sp := range x.Specs {
+					ts, ok := sp.(*ast.TypeSpec)
+					if !ok {
+						continue
+					}
+					st, ok := ts.Type.(*ast.StructType)
+					if !ok {
+						continue
+					}
+					for _, f := range st.Fields.List {
+						if !mentions(f.Type) {
+							continue
+						}
+						kind := "other:" + types.ExprString(f.Type)
+						switch types.ExprString(f.Type) {
+						case "*pathNode":
+							kind = "ptr"
+						case "map[string]*pathNode":
+							kind = "map"
+						}
+						if len(f.Names) == 0 {
+							return in.r.Refuse(f.Pos(), "embedded pathNode in struct %s", ts.Name.Name)
+						}
+						for _, n := range f.Names {
+							in.nodeFields = append(in.nodeFields, [2]string{ts.Name.Name, kind})
+							if kind == "ptr" && ts.Name.Name != "fidRef" {
+								in.rootFields[n.Name] = ts.Name.Name
+							}
+						}
+					}
+				}
+			case *ast.FuncDecl:
+				if x.Body != nil && x.Recv == nil && len(x.Body.List) == 1 {
+					if rs, ok := x.Body.List[0].(*ast.ReturnStmt); ok && len(rs.Results) == 1 && isLit(rs.Results[0]) {
+						ctors[x.Name.Name] = true
+					}
+				}
+			}
+		}
+	}
+	sort.Slice(in.nodeFields, func(i, j int) bool {
+		return in.nodeFields[i][0]+"/"+in.nodeFields[i][1] < in.nodeFields[j][0]+"/"+in.nodeFields[j][1]
+	})
+	isAlloc := func(x ast.Expr) bool {
+		if isLit(x) {
+			return true
+		}
+		if ce, ok := x.(*ast.CallExpr); ok {
+			if id, ok := ce.Fun.(*ast.Ident); ok && ctors[id.Name] && len(ce.Args) == 0 {
+				return true
+			}
+		}
+		return false
+	}
+	decls, err := in.r.FuncDecls("p9")
+	if err != nil {
+		return err
+	}
+	var keys []string
+	for k := range decls {
+		keys = append(keys, k)
+	}
+	sort.Strings(keys)
+	for _, k := range keys {
+		fd := decls[k]
+		if fd.Body == nil {
+			continue
+		}
+		dest := map[ast.Expr]string{} // allocation expression -> destination
+		var order []ast.Expr
+		note := func(x ast.Expr, d string) {
+			if _, seen := dest[x]; !seen {
+				order = append(order, x)
+			}
+			dest[x] = d
+		}
+		locals := map[string]ast.Expr{} // local bound to an allocation
+		ast.Inspect(fd.Body, func(n ast.Node) bool {
+			switch s := n.(type) {
+			case *ast.CompositeLit:
+				tn := types.ExprString(s.Type)
+				for _, el := range s.Elts {
+					if kv, ok := el.(*ast.KeyValueExpr); ok && isAlloc(kv.Value) {
+						note(kv.Value, "field:"+tn)
+					}
+				}
+			case *ast.ReturnStmt:
+				for _, r := range s.Results {
+					if isAlloc(r) {
+						note(r, "return")
+					}
+				}
+			case *ast.AssignStmt:
+				for i, r := range s.Rhs {
+					if !isAlloc(r) || i >= len(s.Lhs) {
+						continue
+					}
+					switch l := s.Lhs[i].(type) {
+					case *ast.Ident:
+						locals[l.Name] = r
+						note(r, "other:local "+l.Name)
+					case *ast.IndexExpr:
+						if se, ok := l.X.(*ast.SelectorExpr); ok && se.Sel.Name == "childNodes" {
+							note(r, "childNodes[...]")
+						} else {
+							note(r, "other:"+types.ExprString(l))
+						}
+					default:
+						note(r, "other:"+types.ExprString(l))
+					}
+				}
+				// x.childNodes[name] = local
+				for i, r := range s.Rhs {
+					id, ok := r.(*ast.Ident)
+					if !ok || i >= len(s.Lhs) || locals[id.Name] == nil {
+						continue
+					}
+					if ie, ok := s.Lhs[i].(*ast.IndexExpr); ok {
+						if se, ok := ie.X.(*ast.SelectorExpr); ok && se.Sel.Name == "childNodes" {
+							note(locals[id.Name], "childNodes[...]")
+						}
+					}
+				}
+			}
+			return true
+		})
+		// any allocation not seen in one of the positions above
+		ast.Inspect(fd.Body, func(n ast.Node) bool {
+			if x, ok := n.(ast.Expr); ok && isAlloc(x) {
+				if _, seen := dest[x]; !seen {
+					note(x, "other:"+types.ExprString(x))
+				}
+				return false
+			}
+			return true
+		})
+		for _, x := range order {
+			in.nodeAllocs = append(in.nodeAllocs, [2]string{k, dest[x]})
+		}
+	}
+	return nil
+}
